@@ -10,11 +10,11 @@ import math
 import numpy as _np
 
 from . import real
-from .real import S, Dual, SBool
+from .real import S, Dual, SBool, Env
 
 
 def _has_sym(o):
-    if isinstance(o, (S, Dual, SBool)):
+    if isinstance(o, (S, Dual, SBool, Env)):
         return True
     if isinstance(o, _np.ndarray):
         return o.dtype == object and any(_has_sym(e) for e in o.ravel())
@@ -46,7 +46,7 @@ class NPShim:
     # -- elementary functions --
     @staticmethod
     def log(x):
-        if isinstance(x, (S, Dual)):
+        if isinstance(x, (S, Dual, Env)):
             return x.log()
         if isinstance(x, _np.ndarray) and x.dtype == object:
             return _np.frompyfunc(NPShim.log, 1, 1)(x)
@@ -54,7 +54,7 @@ class NPShim:
 
     @staticmethod
     def sqrt(x):
-        if isinstance(x, (S, Dual)):
+        if isinstance(x, (S, Dual, Env)):
             return x.sqrt()
         if isinstance(x, _np.ndarray) and x.dtype == object:
             return _np.frompyfunc(NPShim.sqrt, 1, 1)(x)
@@ -90,7 +90,7 @@ class NPShim:
     def isfinite(x):
         if isinstance(x, _np.ndarray) and x.dtype == object:
             return _np.ones(x.shape, dtype=bool)
-        if isinstance(x, (S, Dual)):
+        if isinstance(x, (S, Dual, Env)):
             return True
         return _np.isfinite(x)
 
